@@ -195,12 +195,14 @@ def cases(c):
                     for crit in [None] + CRITERIA:
                         out.append({'N': N, 'order': order, 'cplx': cplx, 'kind': 'noise', 'crit': crit,
                                     'cont': 'array', 'directed': crit is None})
-    for i in range(220 if c.tier == 'quick' else 7000):
+    for i in range(1000 if c.tier == 'quick' else 9000):
         N = int(rng.integers(4, 201 if i % 3 == 0 else 48))
         kind = gen.pick(rng, KINDS)
         d = {'N': N, 'order': int(rng.integers(1, min(N - 2, 30) + 1)), 'cplx': int(rng.integers(0, 2)),
              'kind': kind, 'crit': gen.pick(rng, [None, None] + CRITERIA),
              'cont': gen.pick(rng, ['array', 'array', 'list']), 'i': i}
+        if kind != 'int':
+            d['amp10'] = int(gen.pick(rng, [0, 0, 0, -3, -6, -8, 3, 6]))
         if kind == 'int':
             d['idt'] = gen.pick(rng, ['int64', 'int32', 'int16'])
             d['amp'] = gen.pick(rng, [9, 1000, 30000])
@@ -212,6 +214,8 @@ def make_x(c, d):
     x = gen.data({'kind': d['kind'], 'N': d['N'], 'cplx': bool(d['cplx']), 'amp': d.get('amp', 9)}, c.rng(d, 'x'))
     if d['kind'] == 'int' and not d['cplx'] and d.get('idt'):
         x = x.astype(d['idt'])
+    if d.get('amp10'):
+        x = x * 10.0 ** d['amp10']
     return x
 
 
